@@ -2,7 +2,7 @@
    one theorem per record type / body kind, NetBIOS round trip for all names.
    (listed in props/C17.json extra_theorem_files) *)
 From PV Require Import Base.Prelude Base.Slice Model.DNS Model.DNSMerge Model.DNSRecords Model.DNSNbns Model.DNSMdns
-     Spec.RFC1035 Proofs.DNSSpec Proofs.DNSReject Proofs.DNSHistory.
+     Spec.RFC1035 Proofs.DNSSpec Proofs.DNSReject Proofs.DNSHistory Proofs.DNSDecide.
 Open Scope N_scope.
 
 (* The DNSTable has no ageing in the code (nothing ever deletes from DNSHandler.DNSTable); ageing exists
@@ -118,3 +118,20 @@ Theorem C17_nbns_roundtrip_all : forall n spare, (length n <= 16)%nat -> bytes_o
   decodeNBNSName (of_bytes_cap (encodeNBNSName n) spare) = Ok (33%nat, present_spaces (nb_pad16 n)).
 Proof. exact nbns_roundtrip_all. Qed.
 Print Assumptions C17_nbns_roundtrip_all.
+
+(* decodeName against the reference decoder for ALL byte strings, offsets, buffers and capacities:
+   no name => error; a name => whatever is returned is that name and its end offset, it is returned
+   when reached through <= 254 pointers with <= 256 octets, and more than 254 pointers always give an
+   error (Examples: 254 / 255 pointers, 256 / 257 octets in Properties/C17.v) *)
+Theorem C17_name_decides : forall data off buf, wf data -> bytes_ok (arr data) ->
+  match ref_decode (view data) off with
+  | None => exists e, decodeName name_fuel data off buf 1 = Err e
+  | Some (ls, n) =>
+      let d := ref_depth (S (length (view data))) (view data) off in
+      (forall nm nx b, decodeName name_fuel data off buf 1 = Ok (nm, nx, b) -> nm = dotted ls /\ nx = n) /\
+      ((d <= 254)%nat -> (wire_len ls <= 256)%nat ->
+         exists b, decodeName name_fuel data off buf 1 = Ok (dotted ls, n, b)) /\
+      ((254 < d)%nat -> exists e, decodeName name_fuel data off buf 1 = Err e)
+  end.
+Proof. exact name_decides. Qed.
+Print Assumptions C17_name_decides.
